@@ -64,7 +64,9 @@ theorem step_frame (w : World) (tid i : Nat) (h : i ≠ tid) : (w.runTask tid).t
   runTask_tasks_ne w tid h
 
 /-- **Own writes only.**  Under every schedule (cancellations included), for every task `i` that is a transaction
-block (context-manager or decorator form — the form is not looked at by any rule —, nested blocks inside, explicit
+block (context-manager form on a context object of its own, context-manager form on ONE context object shared by all the tasks
+and entered by several of them at once, or decorator form — the form is not looked at by any rule: after the repairs of D12 and
+D45 nothing a block remembers is shared between tasks through the object —, nested blocks inside, explicit
 `tx.commit()` / `tx.rollback()` calls inside).  `specBody` is the body's sequential meaning, a fold that knows nothing of
 locks, schedules or other tasks: a body is a sequence of segments separated by its explicit commits / rollbacks;
 `s.done` = the commits of the explicitly committed segments, `commitMuts s` = the commit of the segment open at the end.
@@ -615,6 +617,18 @@ example : (fun w : World => ((w.tasks 0).pc, mineOf w 0, w.store 0, w.store 2, (
     ((World.init exStore1 (exCaught .locked .dec)).run exCaughtSched) =
     (.finished (.returned [some 2, some 3]), [.setMany [(1, 5), (2, 7), (0, 3), (3, 9)]], some 7, some 7,
      .finished (.returned [some 7])) := by decide
+
+/-- **one shared context object** (`T = cache.transaction(m)` at module level, `async with T:` in two tasks at once; defect D45 kept
+the block's state on the object): each task runs its own transaction — the raising one applies nothing, the other one commits
+its own writes; task 0 re-enters the object nested in itself -/
+def exShared (m : Mode) : List Task :=
+  [{ isTx := true, mode := m, timeout := 40, form := .obj, prog := [.set 1 5, .nestIn .obj, .incr 0 1, .nestOut none] },
+   { isTx := true, mode := m, timeout := 40, form := .obj, prog := [.incr 0 2, .set 2 6, .raise ⟨false, false⟩] }]
+
+example : (fun w : World => ((w.tasks 0).pc, mineOf w 0, (w.tasks 1).pc, mineOf w 1, w.store 0, w.store 2))
+    ((World.init exStore1 (exShared .locked)).run
+      [.run 0, .run 1, .run 1, .run 1, .run 0, .run 0, .run 1, .run 1, .run 1, .adv 4, .run 0, .run 0, .run 0, .run 0, .run 0]) =
+    (.finished (.returned [some 2]), [.setMany [(1, 5), (0, 2)]], .finished (.raised ⟨false, false⟩), [], some 2, none) := by decide
 
 /-- **explicit `tx.commit()` in the middle of a body**: task 0 increments, commits, increments again; after the commit it
 holds no lock, so task 1 gets the counter's lock in between and task 0's second `incr` has to wait for it -/
